@@ -175,7 +175,16 @@ def apply_op(run, op):
     if o == "reg":
         return run.register(op["kind"], op["fn"])
     if o == "attach":
-        return run.attach(op["o"])
+        rec = run.attach(op["o"])
+        w = getattr(run, "witness", None)
+        if w is not None and w.s is not None and getattr(run, "witness_idle", False) and op["o"] == 1:
+            # the same observer object is then attached to the other (idle) scheduler of the process as well: it stays
+            # attached HERE until it is detached here
+            try:
+                w.s.attach(run.observers[1])
+            except Exception:  # noqa: BLE001
+                pass
+        return rec
     if o == "detach":
         return run.detach(op["o"])
     if o == "start":
@@ -228,7 +237,7 @@ def run_impl(case, scratch=None):
                    mutate=case.get("mutate", False), as_file=as_file,
                    imm_other=(lambda k: case["imm_other"][k % len(case["imm_other"])]) if case.get("imm_other") else None,
                    imm_sf=(lambda k: case["imm_sf"][k % len(case["imm_sf"])]) if case.get("imm_sf") else None,
-                   reuse_event=case.get("reuse_event"))
+                   reuse_event=case.get("reuse_event"), reseed=bool(case.get("reseed")))
     if case.get("witness") and case.get("witness_late"):
         # yet another scheduler, constructed AFTER the one under test, with an execution engine of its own
         late = impl.Run(case["text"], ids=case["ids"], answers=lambda name, ctx: TERMINATOR if name != "p" else TERMINATOR_P)
@@ -238,6 +247,7 @@ def run_impl(case, scratch=None):
         run.late_witness = late
     impl.SHARED_TARGET[0] = run
     run.witness = witness
+    run.witness_idle = bool(case.get("witness")) and case.get("witness") != "live"
     res = {"valid": run.valid, "ctor_exc": run.ctor_exc, "ctor_out": run.ctor_out[:500]}
     if run.s is None or not run.valid:
         res["calls"] = []
